@@ -22,7 +22,12 @@ type schemeSwitch struct {
 	Stmt    *ast.SwitchStmt
 	Cases   map[string]string // scheme -> constructed type name
 	Default *ast.CaseClause
-	Pos     token.Pos
+	// table-driven dispatch (map[string]constructor indexed by the scheme): the statements executed when the
+	// scheme is not in the table; NoDefault when the lookup has no miss branch at all
+	Table       bool
+	DefaultBody []ast.Stmt
+	NoDefault   bool
+	Pos         token.Pos
 	Derived string // non-empty: the tag is not the scheme itself but an expression computed from it
 }
 
@@ -118,7 +123,207 @@ func findSchemeSwitches(w *World) []schemeSwitch {
 			return true
 		})
 	})
+	out = append(out, findSchemeTables(w)...)
 	sort.Slice(out, func(i, j int) bool { return out[i].Pos < out[j].Pos })
+	return out
+}
+
+// isSchemeExpr: e selects url.URL.Scheme, or is a local copied from such a selector in fd.
+func isSchemeExpr(info *types.Info, fd *ast.FuncDecl, e ast.Expr) bool {
+	if fv := fieldOfSel(info, e); fv != nil && fv.Name() == "Scheme" && fv.Pkg() != nil && fv.Pkg().Path() == "net/url" {
+		return true
+	}
+	id, ok := unparen(e).(*ast.Ident)
+	if !ok {
+		return false
+	}
+	found := false
+	ast.Inspect(fd.Body, func(y ast.Node) bool {
+		if as, ok := y.(*ast.AssignStmt); ok && len(as.Lhs) == 1 && len(as.Rhs) == 1 {
+			if lid, ok := as.Lhs[0].(*ast.Ident); ok && (info.Defs[lid] == info.Uses[id] || info.Uses[lid] == info.Uses[id]) {
+				if f2 := fieldOfSel(info, as.Rhs[0]); f2 != nil && f2.Name() == "Scheme" {
+					found = true
+				}
+			}
+		}
+		return true
+	})
+	return found
+}
+
+// findSchemeTables: the table-driven form of a dispatcher — a package-level map[string]constructor literal
+// indexed by a URL scheme. The map's keys are the cases; the branch taken when the comma-ok lookup misses is
+// the default.
+func findSchemeTables(w *World) []schemeSwitch {
+	// package-level map literals with constant string keys
+	type tbl struct {
+		info *types.Info
+		lit  *ast.CompositeLit
+	}
+	tables := map[types.Object]tbl{}
+	for _, p := range w.Pkgs {
+		for _, f := range p.Syntax {
+			for _, d := range f.Decls {
+				gd, ok := d.(*ast.GenDecl)
+				if !ok || gd.Tok != token.VAR {
+					continue
+				}
+				for _, sp := range gd.Specs {
+					vs := sp.(*ast.ValueSpec)
+					for i, name := range vs.Names {
+						if i >= len(vs.Values) {
+							continue
+						}
+						lit, ok := unparen(vs.Values[i]).(*ast.CompositeLit)
+						if !ok {
+							continue
+						}
+						if mt, ok := p.TypesInfo.TypeOf(lit).Underlying().(*types.Map); !ok || !types.Identical(mt.Key().Underlying(), types.Typ[types.String]) {
+							continue
+						}
+						tables[p.TypesInfo.Defs[name]] = tbl{p.TypesInfo, lit}
+					}
+				}
+			}
+		}
+	}
+	if len(tables) == 0 {
+		return nil
+	}
+	// the type a constructor value builds
+	ctorType := func(info *types.Info, e ast.Expr) string {
+		switch x := unparen(e).(type) {
+		case *ast.FuncLit:
+			return constructedType(info, &ast.CaseClause{Body: x.Body.List})
+		case *ast.Ident, *ast.SelectorExpr:
+			var obj types.Object
+			if id, ok := x.(*ast.Ident); ok {
+				obj = info.Uses[id]
+			} else {
+				obj = info.Uses[x.(*ast.SelectorExpr).Sel]
+			}
+			if fobj, ok := obj.(*types.Func); ok {
+				if fd := w.Decl(fobj); fd != nil && fd.Body != nil {
+					return constructedType(w.InfoOf(fd), &ast.CaseClause{Body: fd.Body.List})
+				}
+			}
+		case *ast.CompositeLit, *ast.UnaryExpr:
+			return constructedType(info, &ast.CaseClause{Body: []ast.Stmt{&ast.ExprStmt{X: x}}})
+		}
+		return ""
+	}
+	var out []schemeSwitch
+	w.AllFuncDecls(func(p *packagesPkg, fd *ast.FuncDecl) {
+		info := p.TypesInfo
+		obj, _ := info.Defs[fd.Name].(*types.Func)
+		var visitBlock func(list []ast.Stmt)
+		lookup := func(e ast.Expr) (tbl, *ast.IndexExpr, bool) {
+			ix, ok := unparen(e).(*ast.IndexExpr)
+			if !ok {
+				return tbl{}, nil, false
+			}
+			id, ok := unparen(ix.X).(*ast.Ident)
+			if !ok {
+				return tbl{}, nil, false
+			}
+			t, ok := tables[info.Uses[id]]
+			if !ok || !isSchemeExpr(info, fd, ix.Index) {
+				return tbl{}, nil, false
+			}
+			return t, ix, true
+		}
+		mk := func(t tbl, ix *ast.IndexExpr) schemeSwitch {
+			ss := schemeSwitch{Fn: obj, Decl: fd, Cases: map[string]string{}, Pos: ix.Pos(), Table: true}
+			for _, el := range t.lit.Elts {
+				kv, ok := el.(*ast.KeyValueExpr)
+				if !ok {
+					continue
+				}
+				if k, ok := constStr(t.info, kv.Key); ok {
+					ss.Cases[k] = ctorType(t.info, kv.Value)
+				}
+			}
+			return ss
+		}
+		seen := map[*ast.IndexExpr]bool{}
+		visitBlock = func(list []ast.Stmt) {
+			for i, st := range list {
+				var okIdent *ast.Ident
+				var t tbl
+				var ix *ast.IndexExpr
+				var init ast.Stmt
+				follow := list[i+1:]
+				switch x := st.(type) {
+				case *ast.AssignStmt:
+					init = x
+				case *ast.IfStmt:
+					init = x.Init
+					follow = append([]ast.Stmt{&ast.IfStmt{If: x.If, Cond: x.Cond, Body: x.Body, Else: x.Else}}, follow...)
+				}
+				if as, ok := init.(*ast.AssignStmt); ok && len(as.Rhs) == 1 && len(as.Lhs) == 2 {
+					if tt, ixx, ok := lookup(as.Rhs[0]); ok {
+						t, ix = tt, ixx
+						okIdent, _ = as.Lhs[1].(*ast.Ident)
+					}
+				}
+				if ix == nil || okIdent == nil || okIdent.Name == "_" {
+					continue
+				}
+				seen[ix] = true
+				ss := mk(t, ix)
+				ss.NoDefault = true
+				okObj := info.Defs[okIdent]
+				if okObj == nil {
+					okObj = info.Uses[okIdent]
+				}
+				isOk := func(e ast.Expr) bool {
+					id, ok := unparen(e).(*ast.Ident)
+					return ok && info.Uses[id] == okObj
+				}
+				for j, f := range follow {
+					is, ok := f.(*ast.IfStmt)
+					if !ok {
+						continue
+					}
+					if u, ok := unparen(is.Cond).(*ast.UnaryExpr); ok && u.Op == token.NOT && isOk(u.X) {
+						ss.DefaultBody, ss.NoDefault = is.Body.List, false
+						break
+					}
+					if isOk(is.Cond) {
+						if eb, ok := is.Else.(*ast.BlockStmt); ok {
+							ss.DefaultBody, ss.NoDefault = eb.List, false
+						} else if n := len(is.Body.List); n > 0 && is.Else == nil {
+							if _, ret := is.Body.List[n-1].(*ast.ReturnStmt); ret {
+								ss.DefaultBody, ss.NoDefault = follow[j+1:], false
+							}
+						}
+						break
+					}
+				}
+				out = append(out, ss)
+			}
+		}
+		ast.Inspect(fd.Body, func(x ast.Node) bool {
+			switch b := x.(type) {
+			case *ast.BlockStmt:
+				visitBlock(b.List)
+			case *ast.CaseClause:
+				visitBlock(b.Body)
+			}
+			return true
+		})
+		// lookups without the comma-ok form: a miss yields the zero constructor
+		ast.Inspect(fd.Body, func(x ast.Node) bool {
+			if ix, ok := x.(*ast.IndexExpr); ok && !seen[ix] {
+				if t, ixx, ok := lookup(ix); ok {
+					ss := mk(t, ixx)
+					ss.NoDefault = true
+					out = append(out, ss)
+				}
+			}
+			return true
+		})
+	})
 	return out
 }
 
@@ -263,23 +468,32 @@ func checkC18(w *World, r *Report) {
 			sort.Strings(extra)
 			// default
 			info := w.InfoOf(s.Decl)
-			if s.Default == nil {
-				problems = append(problems, "switch has no default: an unknown scheme is silently accepted")
+			var defBody []ast.Stmt
+			hasDefault := false
+			if s.Table {
+				defBody, hasDefault = s.DefaultBody, !s.NoDefault
+			} else if s.Default != nil {
+				defBody, hasDefault = s.Default.Body, true
+			}
+			if !hasDefault {
+				problems = append(problems, mapStr(s.Table, "the table lookup has no branch for a scheme that is not in the table (the zero constructor would be used)")+mapStr(!s.Table, "switch has no default: an unknown scheme is silently accepted"))
 			} else {
 				nret := 0
 				okDefault := true
-				ast.Inspect(s.Default, func(x ast.Node) bool {
-					if rs, ok := x.(*ast.ReturnStmt); ok {
-						nret++
-						if len(rs.Results) == 0 || isNilIdent(info, rs.Results[len(rs.Results)-1]) {
-							okDefault = false
+				for _, st := range defBody {
+					ast.Inspect(st, func(x ast.Node) bool {
+						if rs, ok := x.(*ast.ReturnStmt); ok {
+							nret++
+							if len(rs.Results) == 0 || isNilIdent(info, rs.Results[len(rs.Results)-1]) {
+								okDefault = false
+							}
 						}
-					}
-					return true
-				})
+						return true
+					})
+				}
 				endsWithReturn := false
-				if n := len(s.Default.Body); n > 0 {
-					_, endsWithReturn = s.Default.Body[n-1].(*ast.ReturnStmt)
+				if n := len(defBody); n > 0 {
+					_, endsWithReturn = defBody[n-1].(*ast.ReturnStmt)
 				}
 				if nret == 0 || !okDefault || !endsWithReturn {
 					problems = append(problems, "the default branch does not return a non-nil error on every path: an unknown scheme yields no configuration error")
